@@ -34,26 +34,23 @@ func runC37(c *Ctx) {
 	if fn := p.Func(rel, "floatAggregator", "add"); fn == nil {
 		c.Incomplete("aggregator-counter-update", rel+".(*floatAggregator).add", "", "function not found")
 	} else {
+		// field names by role come from the struct; receiver and parameter names from the declaration
+		rn, pn := "a", "s"
+		if r := fn.Decl.Recv; r != nil && len(r.List) == 1 && len(r.List[0].Names) == 1 {
+			rn = r.List[0].Names[0].Name
+		}
+		if ps := fn.Decl.Type.Params; ps != nil && len(ps.List) == 1 && len(ps.List[0].Names) == 1 {
+			pn = ps.List[0].Names[0].Name
+		}
 		atoms := func(t string) string {
-			switch t {
-			case "a.total":
-				return "total"
-			case "a.last":
-				return "last"
-			case "a.counter":
-				return "counter"
-			case "s.v":
+			if t == pn+".v" {
 				return "v"
-			case "a.resets":
-				return "resets"
-			case "a.sum":
-				return "sum"
-			case "a.count":
-				return "count"
-			case "a.min":
-				return "min"
-			case "a.max":
-				return "max"
+			}
+			if f, ok := strings.CutPrefix(t, rn+"."); ok {
+				switch f {
+				case "total", "last", "counter", "resets", "sum", "count", "min", "max":
+					return f
+				}
 			}
 			return ""
 		}
